@@ -329,7 +329,8 @@ def encode(tokens, rng, maxlen=3, sample=None, maximal=False, strlen=None, intva
 
 def literal_pool(repo, which="login"):
     """integer values suggested by the numeric literals of the hand-written codec sources (T-gen of the value dictionary): for a float
-    literal L the f32 bit patterns of L, its two neighbours, L +- 0.5, L + 0.25, L + 2e-5 and -L; for an integer literal L - 1, L, L + 1"""
+    literal L the f32 bit patterns of L, its two neighbours, L +- 0.5, L + 0.25, L + 2e-5 and -L; for an integer literal L - 1, L, L + 1 and the f32
+    bit patterns of L, L +- 0.5, L + 0.25, L + 0.999, L +- 1 with their neighbours"""
     import os, re, struct, glob
     if which == "login":
         files = glob.glob(os.path.join(repo, "wow_login_messages/src/manual/*.rs")) + glob.glob(os.path.join(repo, "wow_login_messages/src/util/*.rs"))
@@ -354,4 +355,10 @@ def literal_pool(repo, which="login"):
                 continue
             if 1 < L < (1 << 32):
                 pool.update({L - 1, L, L + 1})
+            if 1 < L < (1 << 24):
+                # an integer literal may well be compared with a float read from the wire (after a cast, a match on `value as u32`, ...):
+                # the f32 bit patterns of L, of its neighbours and of values inside the unit interval above / below it
+                for x in (float(L), L + 0.5, L - 0.5, L + 0.25, L + 0.999, L + 2e-5, float(L + 1), float(L - 1)):
+                    b = struct.unpack("<I", struct.pack("<f", x))[0]
+                    pool.update({b, b + 1, max(0, b - 1)})
     return sorted(pool)
